@@ -40,6 +40,10 @@ class G:
             return self.lay(W("*"))
         if r.random() < 0.1:
             return self.lay(gen.P('"%s"' % r.choice(BOUNDS)))
+        if r.random() < 0.12:
+            # a negative bound is not a leaf (`[-5 TO *]`: a prohibited word); seeded C12-G: the bound taken over by
+            # a merge re-created without its children
+            return self.lay(gen.mk("Prohibit", [self.lay(W(r.choice(["5", "1", "10"])))]))
         return self.lay(W(r.choice(BOUNDS)))
 
     def rng_(self, kind):
